@@ -27,14 +27,14 @@ impl Host {
         h.active = true;
         if let Some(m) = v.get("resolve").and_then(|x| x.as_array()) {
             for e in m {
-                let name = e["name"].as_str().unwrap_or("");
+                let name = e["key"].as_str().unwrap_or("");
                 let sym = crate::val::sym_of_name(name);
                 h.resolve.push((sym, e["value"].to_string()));
             }
         }
         if let Some(m) = v.get("apply").and_then(|x| x.as_array()) {
             for e in m {
-                h.apply.push((e["ext"].as_u64().unwrap_or(0) as usize, e["value"].to_string()));
+                h.apply.push((e["key"].as_u64().unwrap_or(0) as usize, e["value"].to_string()));
             }
         }
         if let Some(d) = v.get("defer") {
@@ -109,7 +109,7 @@ fn host_apply<S: Store>(data: &mut S, external: usize, input: usize) -> Result<b
         None => Ok(false),
         Some(js) => {
             let d: Value = serde_json::from_str(&js).unwrap();
-            let a = if d.as_str() == Some("arg") { input } else { crate::val::make(data, &d).map_err(|e| DataError::from(e))? };
+            let a = if d["t"].as_str() == Some("ARG") { input } else { crate::val::make(data, &d).map_err(|e| DataError::from(e))? };
             data.push_register(a)?;
             Ok(true)
         }
